@@ -149,6 +149,9 @@ SAME_OBJ_SWAP = ["gjk_jolt", "gjk_original", "nesterov_distance", "isect_jolt", 
                  "isect_nesterov", "mpr_pen", "epa", "nesterov_prim_distance"]
 
 
+AGAIN_OPS = ["gjk_jolt", "nesterov_distance", "mpr_pen", "isect_libccd"]
+
+
 def variants_of(scene):
     """[(name, spec1, spec2, map)] ; map = dict(swap, R, t, s)"""
     s1, s2 = scene["c1"], scene["c2"]
@@ -175,8 +178,11 @@ def worker_cases(scene):
                 if o["fn"] in ("support", "center"):
                     o["which"] = 3 - o["which"]
         if name == "orig":
+            # the same two objects again: arguments exchanged, then the first queries repeated in the original order
+            # (a result cached on an object / keyed on the first argument survives into these calls)
             ops = ops + [dict(o, swap=True, tag="same:" + op_key(o)) for o in scene_ops(scene) if o["fn"] in SAME_OBJ_SWAP
                          and "tag" not in o]
+            ops = ops + [dict(o, tag="again:" + op_key(o)) for o in scene_ops(scene) if o["fn"] in AGAIN_OPS and "tag" not in o]
         out.append(dict(c1=a, c2=b, ops=ops, same_object=bool(scene["meta"].get("same_object"))))
     return out
 
@@ -334,14 +340,14 @@ def judge_narrow(R, scene, res, T, member_queue):
                 clear = "overlap"
     T.hit("scene_" + (clear or "band_or_undecided"))
 
-    variants = [(i, var[i][0], var[i][3]) for i in range(1, len(var))] + [(0, "same", dict(var[1][3]))]
+    variants = [(i, var[i][0], var[i][3]) for i in range(1, len(var))] + [(0, "same", dict(var[1][3])), (0, "again", dict(var[0][3]))]
     for vi, vname, mp in variants:
         ov_all = by[vi]
-        pref = "same:" if vname == "same" else ""
+        pref = "same:" if vname == "same" else "again:" if vname == "again" else ""
         sw = mp["swap"]
         Lv = L[vi]
         for fn in list(o0):
-            if fn.startswith("same:") or fn == "mpr_fine":
+            if fn.startswith("same:") or fn.startswith("again:") or fn == "mpr_fine":
                 continue
             if pref + fn not in ov_all:
                 continue
@@ -426,7 +432,8 @@ def judge_narrow(R, scene, res, T, member_queue):
                     T.hit("skip_mpr_concentric")
                     continue
                 f0 = o0.get("mpr_fine")
-                pv = by[1] if pref else by[vi]       # the same-object swap repeats the computation of the swap form
+                # the same-object swap repeats the computation of the swap form, "again" that of the original
+                pv = by[1] if pref == "same:" else by[0] if pref == "again:" else by[vi]
                 tol = K_MPR * (mp["s"] * L[0] + Lv)
                 conv = True
                 for coarse, fine, sc in ((a0, f0, mp["s"]), (pv.get("mpr_pen"), pv.get("mpr_fine"), 1.0)):
